@@ -284,6 +284,18 @@ func bisim(wa *OWorld, a State, wb *OWorld, b State, kind, path string, assumed 
 	if ra.Class == "unres" && kind != "schema" && bo.WildcardNonSchemaUnres {
 		return nil
 	}
+	if ra.Class == "unres" && bo.UnresByText {
+		// "left verbatim where it was": the second side must hold the same $ref text at this position, whatever that
+		// text happens to designate when it is read from the root's location
+		if rb.Class == "unres" && rb.Via == ra.Via {
+			return nil // the same chain ends in the same unresolvable text (e.g. both sides read in an unmodified document)
+		}
+		bn, _ := wb.Lookup(b)
+		if text, isRef := RefOf(bn); !isRef || text != ra.Via {
+			return mm(fmt.Sprintf("unresolvable $ref not left verbatim: %q vs %s", ra.Via, abbrev(Text(bn))))
+		}
+		return nil
+	}
 	if ra.Class != rb.Class {
 		return mm(fmt.Sprintf("one side is %s, the other %s", ra.Class, rb.Class))
 	}
@@ -291,12 +303,6 @@ func bisim(wa *OWorld, a State, wb *OWorld, b State, kind, path string, assumed 
 	case "bottom":
 		return nil
 	case "unres":
-		if bo.UnresByText {
-			if ra.Via != rb.Via {
-				return mm(fmt.Sprintf("unresolvable $ref not left verbatim: %q vs %q", ra.Via, rb.Via))
-			}
-			return nil
-		}
 		if ra.St != rb.St {
 			return mm("different unresolvable targets")
 		}
